@@ -42,14 +42,35 @@ impl Fixture {
     }
 }
 
+/// a reader that hands the data out in pieces of varying size (a pipe, a socket, a decompressor)
+pub struct PieceReader<'a> { pub data: &'a [u8], pub pos: usize, pub step: usize }
+impl<'a> std::io::Read for PieceReader<'a> {
+    fn read(&mut self, buf: &mut [u8]) -> std::io::Result<usize> {
+        let n = buf.len().min(self.step).min(self.data.len() - self.pos);
+        buf[..n].copy_from_slice(&self.data[self.pos..self.pos + n]);
+        self.pos += n;
+        self.step = self.step % 61 + 1;
+        Ok(n)
+    }
+}
+
+/// the key for these credentials.  The order of the builder calls and the way the key file is delivered
+/// (one slice, or pieces of varying size) are chosen from the content, so every stream exercises all of them
 pub fn make_key(password: Option<&str>, keyfile: Option<&[u8]>) -> DatabaseKey {
     let mut k = DatabaseKey::new();
+    let variant = keyfile.map(|f| f.iter().fold(f.len(), |a, b| a.wrapping_mul(31).wrapping_add(*b as usize))).unwrap_or(0);
+    let keyfile_first = variant % 2 == 1;
+    let add_keyfile = |k: DatabaseKey| -> DatabaseKey {
+        match keyfile {
+            Some(kf) if (variant / 2) % 2 == 1 => { let mut r = PieceReader { data: kf, pos: 0, step: 1 + variant % 7 }; k.with_keyfile(&mut r).unwrap() }
+            Some(kf) => { let mut r: &[u8] = kf; k.with_keyfile(&mut r).unwrap() }
+            None => k,
+        }
+    };
+    if keyfile_first { k = add_keyfile(k); }
     if let Some(p) = password {
         k = k.with_password(p);
     }
-    if let Some(kf) = keyfile {
-        let mut r: &[u8] = kf;
-        k = k.with_keyfile(&mut r).unwrap();
-    }
+    if !keyfile_first { k = add_keyfile(k); }
     k
 }
